@@ -192,13 +192,20 @@ fn worker_config() -> tako::worker::WorkerConfiguration {
     }
 }
 
-/// kinds of waiting tasks: 0 small (1 cpu), 1 big (8 cpus), 2 long (min_time 2h), 3 multi-node (2 nodes)
+/// kinds of waiting tasks: 0 small (1 cpu), 1 big (8 cpus), 2 long (min_time 2h), 3 multi-node (2 nodes),
+/// 4 gpu (1 cpu + 1 gpus: a resource the queues' command lines do not mention and the real workers do not have)
 fn task_rqv(kind: u32) -> ResourceRequestVariants {
     let mut resources = smallvec::SmallVec::new();
     if kind != 3 {
         resources.push(ResourceRequestEntry {
             resource: "cpus".to_string(),
             policy: AllocationRequest::Compact(ResourceAmount::new_units(if kind == 1 { 8 } else { 1 })),
+        });
+    }
+    if kind == 4 {
+        resources.push(ResourceRequestEntry {
+            resource: "gpus".to_string(),
+            policy: AllocationRequest::Compact(ResourceAmount::new_units(1)),
         });
     }
     ResourceRequestVariants::new_simple(ResourceRequest {
@@ -245,7 +252,7 @@ async fn one_run(run: u64, seed: u64, steps: usize, out: &mut dyn Write) -> (usi
     };
     let ev0 = drain(&mut rx);
     writeln!(out, "{}", json!({"run": run, "i": 0, "a": "Reset", "args": {"queues": queue_cfg, "delays": [0, 1, 2], "max_sub_fails": 2, "max_alloc_fails": 2},
-                               "demand": [], "demand_all": [], "calls": [], "removes": [], "ev": ev0, "st": aa.snapshot(), "tasks": [0, 0, 0, 0], "now": 0, "pan": 0, "ploc": ""})).unwrap();
+                               "demand": [], "demand_all": [], "calls": [], "removes": [], "ev": ev0, "st": aa.snapshot(), "tasks": [0, 0, 0, 0, 0], "now": 0, "pan": 0, "ploc": ""})).unwrap();
     let mut n = 0usize;
     for i in 1..=steps {
         let snap = aa.snapshot();
@@ -274,7 +281,7 @@ async fn one_run(run: u64, seed: u64, steps: usize, out: &mut dyn Write) -> (usi
             aa.shift_time(UNIT * d as u32);
             ("Tick", json!({"d": d}))
         } else if choice < 50 {
-            let kind = [0u32, 0, 0, 1, 2, 3][rng.below(6)];
+            let kind = [0u32, 0, 0, 1, 2, 3, 4, 4][rng.below(8)];
             let id = next_task;
             next_task += 1;
             let rq = server.server_ref().get_or_create_resource_rq_id(&task_rqv(kind));
@@ -364,7 +371,7 @@ async fn one_run(run: u64, seed: u64, steps: usize, out: &mut dyn Write) -> (usi
             let mut s = shared.borrow_mut();
             (std::mem::take(&mut s.calls), std::mem::take(&mut s.removes))
         };
-        let mut kinds = [0u32; 4];
+        let mut kinds = [0u32; 5];
         for k in tasks.values() {
             kinds[*k as usize] += 1;
         }
